@@ -1,5 +1,7 @@
 #!/bin/sh
+# Build the framework from files on disk only (offline): translator output,
+# Lean theorems + model driver, probe binaries for the quick-tier configurations.
 set -e
 cd "$(dirname "$0")"
-python3 tools/extract.py
-(cd lean && lake build)
+export CARGO_NET_OFFLINE=true
+python3 tools/setup.py
